@@ -615,9 +615,21 @@ pub fn finish(
     let mut not_reproduced: Vec<String> = Vec::new();
     let dir = format!("{}/replays/{}", verif_dir(), meta.prop);
     let _ = std::fs::remove_dir_all(&dir);
-    let viols: Vec<Violation> = acc.violations.values().cloned().collect();
-    for v in &viols {
-        let again = recheck(&v.case);
+    let mut viols: Vec<Violation> = acc.violations.values().cloned().collect();
+    // re-execution, smallest case first. When a violation shows only on a very large input, re-executing every
+    // signature on it can take minutes (and the supervisor would kill the check: no verdict at all). After 60 s of
+    // re-executions - and once at least one violation HAS reproduced - the remaining ones are reported as recorded,
+    // with that remark. (The explorations are deterministic; re-execution guards against harness slips, and the
+    // sampling passes - whose cases are small - come first in this order.)
+    viols.sort_by_key(|v| v.size);
+    let t0 = Instant::now();
+    let mut reproduced_any = false;
+    for v in &mut viols {
+        let over_budget = reproduced_any && t0.elapsed() > Duration::from_secs(60);
+        let again = if over_budget { vec![v.sig.clone()] } else { recheck(&v.case) };
+        if over_budget {
+            v.desc = format!("{} [reported as recorded: the 60 s re-execution budget was used up by the cases before it]", v.desc);
+        }
         if !again.iter().any(|s| s == &v.sig) {
             // not believed; a machinery error unless other violations of this run do reproduce (then: a note)
             not_reproduced.push(format!("sig={} did not reproduce on re-execution (got {:?}); case={}", v.sig, again, v.case.to_string().chars().take(600).collect::<String>()));
@@ -626,6 +638,7 @@ pub fn finish(
         if let Some(d) = known.lookup(meta.prop, &v.sig) {
             println!("KNOWN-FINDING: property={} sig={} {}", meta.prop, v.sig, d);
             known_hits.push(v.sig.clone());
+            reproduced_any = true;
             continue;
         }
         let _ = std::fs::create_dir_all(&dir);
@@ -641,6 +654,7 @@ pub fn finish(
         println!("VIOLATION property={} replay={}", meta.prop, path);
         println!("  sig={}  {}", v.sig, v.desc);
         reported.push(v.sig.clone());
+        reproduced_any = true;
         exit = 1;
     }
     if !not_reproduced.is_empty() {
